@@ -3,6 +3,7 @@ package props
 import (
 	"bytes"
 	"fmt"
+	"net/http"
 	nurl "net/url"
 	"os"
 	"os/exec"
@@ -11,6 +12,7 @@ import (
 	"sort"
 	"strings"
 	"sync"
+	"time"
 
 	distiller "github.com/markusmobius/go-domdistiller"
 	"github.com/markusmobius/go-domdistiller/verifrt"
@@ -38,7 +40,13 @@ func c12Docs() map[string]string {
 		wb.WriteString("<div class=\"w\"><div><p>" + t2.W(24) + "</p></div></div>")
 	}
 	wb.WriteString("</body></html>")
-	return map[string]string{"min": min, "rich1": rich1, "rich2": rich2, "wrapped": wb.String()}
+	// OpenGraph namespaces declared by a prefix attribute, under different names in the two pages
+	t3 := &ora.Tok{}
+	pfx := func(decl, og string) string {
+		return "<html prefix=\"" + decl + "\"><head><title>" + ora.DefaultTitle + "</title><meta property=\"" + og + ":type\" content=\"article\"><meta property=\"" + og + ":title\" content=\"T\"><meta property=\"" + og + ":url\" content=\"http://example.com/x\"><meta property=\"" + og + ":image\" content=\"http://example.com/i.jpg\"></head><body><p>" + t3.W(24) + "</p><p>" + t3.W(22) + "</p></body></html>"
+	}
+	return map[string]string{"min": min, "rich1": rich1, "rich2": rich2, "wrapped": wb.String(),
+		"prefixA": pfx("og: http://ogp.me/ns# article: http://ogp.me/ns/article#", "og"), "prefixB": pfx("ogp: http://ogp.me/ns#", "ogp")}
 }
 
 type c12Thread struct {
@@ -72,6 +80,8 @@ func c12Scenarios() []c12Scenario {
 		{name: "S-c", threads: []c12Thread{{"min", "apply-shared", 0, 0, true}, {"min", "apply-shared", 0, 0, true}, {"min", "apply-own", 30, 1, false}}},
 		{name: "S-d", threads: []c12Thread{{"rich2", "apply-shared", 0, 0, true}, {"rich2", "reader", 0, 1, false}}},
 		{name: "S-e-log", threads: []c12Thread{{"min", "apply-shared", 30, 1, false}, {"min", "apply-own", 30, 0, false}}},
+		{name: "S-h-url", threads: []c12Thread{{"min", "url", 0, 0, true}, {"min", "url", 0, 0, true}}},
+		{name: "S-g-prefix", threads: []c12Thread{{"prefixA", "apply-own", 0, 0, true}, {"prefixB", "apply-own", 0, 0, true}}},
 		{name: "S-f-wrapped", threads: []c12Thread{{"wrapped", "apply-own", 0, 0, true}, {"wrapped", "apply-own", 0, 0, true}}},
 	}
 }
@@ -82,6 +92,9 @@ func c12Enumerate(tier string, emit func(*eng.Case)) {
 	for _, sc := range c12Scenarios() {
 		// V-level: unbounded over visible operations
 		emit(&eng.Case{Kind: "sched", P: map[string]string{"scenario": sc.name, "level": "V", "bound": "1000", "shard": "0", "nshards": "1", "doc": sc.name + " V-level unbounded"}})
+		if sc.name == "S-h-url" {
+			continue // below the entry point this is S-a-min; the entry point itself is explored at A-level
+		}
 		// F-level
 		bound := 1
 		if tier == "thorough" && (sc.name == "S-a-min") {
@@ -97,6 +110,11 @@ func c12Enumerate(tier string, emit func(*eng.Case)) {
 		for sh := 0; sh < c12Shards; sh++ {
 			emit(&eng.Case{Kind: "sched", P: map[string]string{"scenario": sc.name, "level": "F", "bound": fmt.Sprint(bound), "shard": fmt.Sprint(sh), "nshards": fmt.Sprint(c12Shards), "doc": fmt.Sprintf("%s F-level bound %d shard %d/%d", sc.name, bound, sh, c12Shards)}})
 		}
+	}
+	// A-level: the entry points themselves (what they do with the caller's Options before and after
+	// the extraction) interleaved with two preemptions
+	for _, name := range []string{"S-h-url", "S-a-min", "S-e-log"} {
+		emit(&eng.Case{Kind: "sched", P: map[string]string{"scenario": name, "level": "A", "bound": "1000", "shard": "0", "nshards": "1", "doc": name + " A-level (function entries of distiller.go) unbounded"}})
 	}
 	// X: the documents of the other checks (quick: every 16th document of the cross corpus), two
 	// calls sharing tree and Options, V-level
@@ -149,6 +167,7 @@ func c12Prepare(sc c12Scenario) *c12Run {
 			opts = &distiller.Options{OriginalURL: u2, LogFlags: distiller.LogFlag(th.flags), PaginationAlgo: distiller.PaginationAlgo(th.algo)}
 		}
 		var tree *html.Node
+		fetch := fmt.Sprintf("http://example.com/fetched/thread-%d?page=2", i)
 		switch th.entry {
 		case "apply-shared":
 			if r.sharedDoc[th.doc] == nil {
@@ -167,6 +186,9 @@ func c12Prepare(sc c12Scenario) *c12Run {
 			var err error
 			if th.entry == "reader" {
 				res, err = distiller.ApplyForReader(strings.NewReader(src), opts)
+			} else if th.entry == "url" {
+				// through the in-process transport installed by c12Check / RacePassMain
+				res, err = distiller.ApplyForURL(fetch, 5*time.Second, opts)
 			} else {
 				res, err = distiller.Apply(tree, opts)
 			}
@@ -237,6 +259,9 @@ func c12Check(c *eng.Case) *eng.Outcome {
 	if c.Kind == "racepass" {
 		return c12RacePass(c)
 	}
+	oldTransport := http.DefaultTransport
+	http.DefaultTransport = &stubTransport{body: c12Docs()["min"]}
+	defer func() { http.DefaultTransport = oldTransport }()
 	sc, ok := c12Scenario0(c.Get("scenario"))
 	if c.Get("scenario") == "X" {
 		sc, ok = c12X(c.HTML, c.URL, c.Algo), true
@@ -362,6 +387,13 @@ func c12Check(c *eng.Case) *eng.Outcome {
 			}
 		}
 		switch level {
+		case "A":
+			// API level: the function entries of distiller.go (entry points, parsing, output assembly),
+			// i.e. the moments between what an entry point does with the caller's Options and the
+			// extraction proper; nothing below them
+			s.IsPoint = func(ev *eng.SchedEvent) bool {
+				return ev.Kind == verifrt.KEnter && ev.Site >= 0 && ev.Site < len(verifrt.Sites) && strings.HasPrefix(verifrt.Sites[ev.Site], "distiller.go:") && !strings.Contains(verifrt.Sites[ev.Site], ".func")
+			}
 		case "F":
 			s.IsPoint = func(ev *eng.SchedEvent) bool { return true }
 		default: // V: visible operations only
@@ -524,6 +556,7 @@ func c12RacePass(c *eng.Case) *eng.Outcome {
 
 // RacePassMain runs in the -race binary: the scenario bodies as really concurrent goroutines.
 func RacePassMain(tier string) int {
+	http.DefaultTransport = &stubTransport{body: c12Docs()["min"]}
 	iters, par := 40, 8
 	if tier == "thorough" {
 		iters, par = 300, 16
@@ -578,8 +611,8 @@ func init() {
 	eng.Register(&eng.Prop{
 		ID:        "C12",
 		DesignRef: "§5 C12",
-		Rule: "closed drivers with forced sharing: S-a two Apply calls on one shared tree with one shared *Options (minimal page; rich page with table, figure, embed, pager), S-b two different rich pages with shared Options, S-c three threads (S-a + a LogEverything/PageNumber call), S-d Apply(tree) || ApplyForReader(bytes), S-e two logging calls, S-f two calls on a page whose paragraphs each sit in their own wrapper and whose root carries a legacy xmlns namespace prefix; X: the S-a shape (two calls, shared tree, shared Options, the document's own page URL and algorithm) for every 16th (thorough: 8th) document of the cross corpus (documents of C02-C04, C06-C10, C13-C20), V-level. " +
-			"Each scenario is explored by a DFS over the cooperative scheduler's choice points: V-level (scheduling points only at visible operations: package variables ever written, writes to shared trees, lock operations) without preemption bound; F-level (every function entry, loop iteration, package-variable access and node write is a scheduling point) with preemption bound 1 (bound 2 for S-a-min in thorough; in quick the two rich scenarios are explored on every 4th of 48 shards). " +
+		Rule: "closed drivers with forced sharing: S-a two Apply calls on one shared tree with one shared *Options (minimal page; rich page with table, figure, embed, pager), S-b two different rich pages with shared Options, S-c three threads (S-a + a LogEverything/PageNumber call), S-d Apply(tree) || ApplyForReader(bytes), S-e two logging calls, S-f two calls on a page whose paragraphs each sit in their own wrapper and whose root carries a legacy xmlns namespace prefix, S-h two ApplyForURL calls (different addresses, in-process transport) sharing one *Options, S-g two pages that declare the OpenGraph namespace through prefix attributes with different values; X: the S-a shape (two calls, shared tree, shared Options, the document's own page URL and algorithm) for every 16th (thorough: 8th) document of the cross corpus (documents of C02-C04, C06-C10, C13-C20), V-level. " +
+			"Each scenario is explored by a DFS over the cooperative scheduler's choice points: V-level (scheduling points only at visible operations: package variables ever written, writes to shared trees, lock operations) without preemption bound; A-level (scheduling points at the function entries of distiller.go only, i.e. between an entry point's handling of the caller's Options and the extraction proper) without preemption bound on S-h, S-a-min and S-e; F-level (every function entry, loop iteration, package-variable access and node write is a scheduling point) with preemption bound 1 (bound 2 for S-a-min in thorough; in quick the two rich scenarios are explored on every 4th of 48 shards). " +
 			"Oracle on every schedule: each thread's canonical result equals its solo result; no pair of conflicting package-variable accesses from different threads without a common lock; no write to a node of a shared input tree; shared Options and trees unchanged; no panic, deadlock or horizon overrun. Plus one free-running pass of the same bodies (X scenarios included) under the Go race detector. " +
 			"Non-trivial = shards whose executions include >= 1 preemption.",
 		Enumerate:  c12Enumerate,
